@@ -1,5 +1,5 @@
 """C03 Every accepted statement reaches each sink of its logger once, in thread order."""
-from lib import vf, opxlib
+from lib import vf, opxlib, wmmlib
 
 LEVEL = "model_checking"
 SRC = "engines/opx/sc_c03.cpp"
@@ -10,6 +10,7 @@ LONG_FLAGS = ["-O1", "-g"]
 
 
 def prebuild():
+    wmmlib.build_sys()
     opxlib.build("sc_c03", SRC)
     vf.build("c03_long", LONG_SRC, LONG_FLAGS)
 
@@ -92,9 +93,24 @@ def run(ctx):
     lexe = vf.build("c03_long", LONG_SRC, LONG_FLAGS)
     for rr in vf.run_many(long_jobs(lexe, ctx.tier)):
         ctx.absorb(rr, "c03_long")
+    # below Engine B's granularity: the real first use of a thread (context registration), the real log_statement and the real
+    # BackendWorker::_poll interleaved at every atomic operation, with every load value the C++11 model admits
+    hs = wmmlib.build_sys()
+    q = ctx.tier == "quick"
+    sj = [wmmlib.sys_job(hs, "sys", 0, 2, "l1"), wmmlib.sys_job(hs, "sys", 0, 3, "l1,l2"), wmmlib.sys_job(hs, "sys", 0, 2, "l1,l2,l3,l4,l5"),
+          wmmlib.sys_job(hs, "sysbd", 0, 2, "l1,l2,l3,l4,l5"), wmmlib.sys_job(hs, "sys", 1, 1, "l1", "l1")]
+    if not q:
+        sj += [wmmlib.sys_job(hs, "sys", 0, 3, "l1,l2,l3,l4,l5", deadline=1500), wmmlib.sys_job(hs, "sys", 1, 2, "l1", "l1", deadline=1500),
+               wmmlib.sys_job(hs, "sys", 0, 1, "l1", "l1", deadline=1500), wmmlib.sys_job(hs, "sys", 1, 1, "l1,l2", "l1", deadline=1500),
+               wmmlib.sys_job(hs, "sysbd", 1, 1, "l1,l2,l3,l4", "l1", deadline=1500)]
+    wmmlib.run_sys(ctx, sj)
+    ctx.rule += ("; whole-system exploration at atomic-operation granularity (Engine A): first use of one or two threads (real registration), real log "
+                 "calls incl. queue growth / drops, against 1-3 real backend polls, then the backend drains alone: every completed call delivered once, in order")
     ctx.assumptions.append("frontend operations are atomic steps; the backend is preemptible at QUILL_VERIF_YIELD(1..4) and poll boundaries; sequentially consistent interleavings")
     ctx.assumptions.append("a blocked call that never completes is counted under stalls_observed and judged by C09, not here")
 
 
 def replay(rep, extra):
+    if wmmlib.is_sys_record(rep["record"]):
+        return wmmlib.replay_sys("C03", rep)
     return opxlib.replay("C03", opxlib.build("sc_c03", SRC), rep)
